@@ -77,6 +77,9 @@ func init() {
 		r := fr.i.run
 		return r.timeValue(r.now)
 	})
+	reg("(time.Time).Format", func(fr *frame, a []value) value { return "<time>" })
+	reg("(time.Time).String", func(fr *frame, a []value) value { return "<time>" })
+	reg("(time.Duration).String", func(fr *frame, a []value) value { return "<duration>" })
 	reg("time.runtimeNano", func(fr *frame, a []value) value { return fr.i.run.now })
 	reg("github.com/zeromicro/go-zero/core/timex.Now", func(fr *frame, a []value) value {
 		return fr.i.run.now
